@@ -9,8 +9,10 @@
    correspondence of the pipeline model with the implementation plus the oracle run of tools/c03.py. *)
 From Coq Require Import String NArith List Bool.
 From RC Require Import lib.Result lib.Bytes model.Layout model.ChkIo model.RichCodec model.RichIo
-  proofs.C03_proofs proofs.C10_proofs proofs.C03_refuted proofs.C08_proofs proofs.C03_strings proofs.C03_sections model.Str model.StrEditor gen.GenConsts.
+  proofs.C03_proofs proofs.C10_proofs proofs.C03_refuted proofs.C08_proofs proofs.C03_strings proofs.C03_sections proofs.C03_entries model.TrigTable model.Str model.StrEditor gen.GenConsts gen.GenTrig spec.SpecTrig gen.GenFlags.
 Import ListNotations.
+Local Open Scope string_scope.
+Local Open Scope list_scope.
 Local Open Scope N_scope.
 
 Definition C03_full_statement : Prop :=
@@ -90,3 +92,39 @@ Theorem C03_unit_property_table_roundtrip_in_editor_form :
     uprp_encode cs = Ok (mk_struct [("_cuwp_slots"%string, VList slots)]).
 Proof. exact uprp_section_roundtrip_in_editor_form. Qed.
 Print Assumptions C03_unit_property_table_roundtrip_in_editor_form.
+
+(* byte identity of ONE trigger entry in editor form, any of the 51 action types: unused fields zero, only the five defined
+   flag bits, every reference written with the number the save's lookup gives back for what it denotes - then the record
+   written back IS the record that was read *)
+Theorem C03_an_action_in_editor_form_is_rewritten_identically :
+  forall cx cx' vals key args fl v',
+    length vals = length action_record_fields ->
+    let v := entry_val action_record_fields vals in
+    decode_entry_of cx gen_action_table "TriggerActionId" "_action_id" action_flags_codec action_record_fields v
+      = Ok (Some (ERich key args fl)) ->
+    encode_entry_of cx' gen_action_table action_flags_codec action_record_fields (ERich key args fl) = Ok v' ->
+    vint "_flags" v < 32 ->
+    (forall s f, In s spec_action_table -> se_id s = key -> In f action_record_fields -> f <> "_flags" ->
+                 expected_src s f = EZero -> vint f v = 0) ->
+    (forall te a c f x n', find_entry key gen_action_table = Some te -> In (a, c, f) (te_dec te) ->
+       dec_arg cx c (vint f v) = Ok x -> enc_arg cx' c x = Ok n' -> n' = vint f v) ->
+    v' = v.
+Proof. exact action_entry_identity. Qed.
+Print Assumptions C03_an_action_in_editor_form_is_rewritten_identically.
+
+(* ... and any of the 22 condition types *)
+Theorem C03_a_condition_in_editor_form_is_rewritten_identically :
+  forall cx cx' vals key args fl v',
+    length vals = length condition_record_fields ->
+    let v := entry_val condition_record_fields vals in
+    decode_entry_of cx gen_condition_table "TriggerConditionId" "_condition_id" condition_flags_codec condition_record_fields v
+      = Ok (Some (ERich key args fl)) ->
+    encode_entry_of cx' gen_condition_table condition_flags_codec condition_record_fields (ERich key args fl) = Ok v' ->
+    vint "_flags" v < 32 ->
+    (forall s f, In s spec_condition_table -> se_id s = key -> In f condition_record_fields -> f <> "_flags" ->
+                 expected_src s f = EZero -> vint f v = 0) ->
+    (forall te a c f x n', find_entry key gen_condition_table = Some te -> In (a, c, f) (te_dec te) ->
+       dec_arg cx c (vint f v) = Ok x -> enc_arg cx' c x = Ok n' -> n' = vint f v) ->
+    v' = v.
+Proof. exact condition_entry_identity. Qed.
+Print Assumptions C03_a_condition_in_editor_form_is_rewritten_identically.
